@@ -96,4 +96,12 @@ def rejectMargin (dim : Nat) : Nat → BitVec 64 → Rat
     let m := ratAbs (lenSqr v - 1)
     if lenSqr v ≤ 1 then m else ratMin m (rejectMargin dim fuel s1)
 
+/-- rand.rs `UnitCircle::sample` (as repaired in /repo 66dde8c): draw from the square [-1,1)² until the
+vector is non-zero, with fuel (`none` = fuel exhausted); normalisation happens afterwards. -/
+def circleRaw : Nat → BitVec 64 → Option (List Rat × BitVec 64)
+  | 0, _ => none
+  | fuel + 1, s =>
+    let (v, s1) := uniformRatList s (List.replicate 2 (-1, 1))
+    if lenSqr v = 0 then circleRaw fuel s1 else some (v, s1)
+
 end Retro.Rand
